@@ -86,7 +86,8 @@ def r_resolver(root):
         if not ok: out.append(Finding(prop, clause, M, W, what, msg, witness=witness))
     # ------------------------------------------------------------------ C08.d / C09.e : schedules
     bad_order = None; bad_cons = None; n_sched = 0
-    for sched in itertools.product((0, 1, 2), repeat=3):
+    from sa import util as _u
+    for sched in itertools.product((0, 1, 2, 3) if _u.TIER == "thorough" else (0, 1, 2), repeat=3):        # the round in which each of the three list references becomes resolvable
         n_sched += 1
         w = World(); cls = HS({".__name__": "Cls"})
         o = w.obj(refs=[], more=[], one=None, _tx_position=50, _tx_position_end=90); a_refs, a_more, a_one = w.attr("refs", True), w.attr("more", True), w.attr("one", False)
